@@ -54,8 +54,7 @@ package signal
 //@ func Buffer.SetSample(b, i, v)
 //@   props C01 C03 C05 C14
 //@   requires b >= 0 && 0 <= i && i < len(b.data)
-//@   ensures at(b, i) == v
-//@   ensures sameExcept(b, i, i + 1)
+//@   ensures stored(b, i, v)
 //@   modifies H(b)
 
 //@ func min(v1, v2)
@@ -178,9 +177,8 @@ package signal
 //@   props C14 C18 C19
 //@   requires wf(c.Buffer) && 0 <= c.channel && c.channel < c.Buffer.channels
 //@   requires 0 <= index && index < cdiv(len(c.Buffer.data), c.Buffer.channels) && aligned(c.Buffer)
-//@   ensures at(c.Buffer, bi(c.Buffer.channels, c.channel, index)) == s
-//@   ensures sameExcept(c.Buffer, bi(c.Buffer.channels, c.channel, index), bi(c.Buffer.channels, c.channel, index) + 1)
-//@   ensures hdrSame(c.Buffer) && allocs == old(allocs)
+//@   ensures[stored: C14] stored(c.Buffer, bi(c.Buffer.channels, c.channel, index), s)
+//@   ensures[no-alloc: C18] allocs == old(allocs)
 //@   modifies H(c.Buffer)
 
 // ---------------------------------------------------------------------------
@@ -217,5 +215,249 @@ package signal
 //@   loop 1 kernel
 //@     invariant 0 <= $i && $i <= n
 //@     invariant forall(k, 0, $i, dst[k] == K(old(at(src, k))))
+//@     invariant sameExcept(dst, 0, $i)
+//@     decreases n - $i
+
+// ---------------------------------------------------------------------------
+// bit-depth arithmetic (bit-precise: BitDepth is an 8-bit vector, values 64-bit)
+// ---------------------------------------------------------------------------
+
+//@ func BitDepth.MaxSignedValue(b)
+//@   props C16 C06 C07 C08 C09
+//@   mode precise
+//@   pure
+//@   requires b <= bv8(64)
+//@   ensures result == maxSigned(b)
+
+//@ func BitDepth.MinSignedValue(b)
+//@   props C16
+//@   mode precise
+//@   pure
+//@   requires b <= bv8(64)
+//@   ensures result == minSigned(b)
+
+//@ func BitDepth.MaxUnsignedValue(b)
+//@   props C16
+//@   mode precise
+//@   pure
+//@   requires b <= bv8(64)
+//@   ensures result == maxUnsigned(b)
+
+//@ func BitDepth.SignedValue(b, val)
+//@   props C16
+//@   mode precise
+//@   pure
+//@   requires b <= bv8(64)
+//@   ensures result == ite(val < minSigned(b), minSigned(b), ite(val > maxSigned(b), maxSigned(b), val))
+
+//@ func BitDepth.UnsignedValue(b, val)
+//@   props C16
+//@   mode precise
+//@   pure
+//@   requires b <= bv8(64)
+//@   ensures result == ite(val > maxUnsigned(b), maxUnsigned(b), val)
+
+//@ func Scale[T](high, low)
+//@   props C16 C06 C07
+//@   mode precise
+//@   pure
+//@   requires low <= high && high <= bv8(64)
+//@   ensures[value: C16 C06 C07] fitsPow2(T, high - low) ==> result == pow2T(T, high - low)
+//@   ensures[nonzero: C05 C06 C07 C16] fitsPow2(T, high - low) ==> result != zero(T)
+
+// ---------------------------------------------------------------------------
+// sample-format conversions. K is the per-sample kernel extracted from the
+// loop body on every run (DESIGN §3.5); the value lemmas of C06-C09 are stated
+// over K by /verif.
+// ---------------------------------------------------------------------------
+
+//@ func FloatAsFloat[S,D](src, dst)
+//@   props C05 C18 C19 C20
+//@   requires wf(src) && wf(dst) && disjoint(src, dst)
+//@   panics-iff[channels: C15] src.channels != dst.channels
+//@   let n = min(len(src.data), len(dst.data))
+//@   hint cdiv_def(len(src.data), src.channels)
+//@   hint cdiv_def(len(dst.data), dst.channels)
+//@   ensures[values: C05] forall(k, 0, n, at(dst, k) == K(old(at(src, k))))
+//@   ensures[frame: C05 C19 C20] sameExcept(dst, 0, n)
+//@   ensures[count: C05 C20] result == min(ite(src.channels == 0, 0, cdiv(len(src.data), src.channels)),
+//@     | ite(dst.channels == 0, 0, cdiv(len(dst.data), dst.channels)))
+//@   ensures[no-alloc: C18] allocs == old(allocs)
+//@   modifies H(dst)
+//@   loop 1 kernel
+//@     invariant 0 <= $i && $i <= n
+//@     invariant forall(k, 0, $i, at(dst, k) == K(old(at(src, k))))
+//@     invariant sameExcept(dst, 0, $i)
+//@     decreases n - $i
+
+//@ func FloatAsSigned[S,D](src, dst)
+//@   props C05 C18 C19 C20
+//@   requires wf(src) && wf(dst) && disjoint(src, dst)
+//@   panics-iff[channels: C15] src.channels != dst.channels
+//@   let n = min(len(src.data), len(dst.data))
+//@   hint cdiv_def(len(src.data), src.channels)
+//@   hint cdiv_def(len(dst.data), dst.channels)
+//@   ensures[values: C05] forall(k, 0, n, at(dst, k) == K(old(at(src, k))))
+//@   ensures[frame: C05 C19 C20] sameExcept(dst, 0, n)
+//@   ensures[count: C05 C20] result == min(ite(src.channels == 0, 0, cdiv(len(src.data), src.channels)),
+//@     | ite(dst.channels == 0, 0, cdiv(len(dst.data), dst.channels)))
+//@   ensures[no-alloc: C18] allocs == old(allocs)
+//@   modifies H(dst)
+//@   loop 1 kernel
+//@     invariant 0 <= $i && $i <= n
+//@     invariant forall(k, 0, $i, at(dst, k) == K(old(at(src, k))))
+//@     invariant sameExcept(dst, 0, $i)
+//@     decreases n - $i
+
+//@ func FloatAsUnsigned[S,D](src, dst)
+//@   props C05 C18 C19 C20
+//@   requires wf(src) && wf(dst) && disjoint(src, dst)
+//@   panics-iff[channels: C15] src.channels != dst.channels
+//@   let n = min(len(src.data), len(dst.data))
+//@   hint cdiv_def(len(src.data), src.channels)
+//@   hint cdiv_def(len(dst.data), dst.channels)
+//@   ensures[values: C05] forall(k, 0, n, at(dst, k) == K(old(at(src, k))))
+//@   ensures[frame: C05 C19 C20] sameExcept(dst, 0, n)
+//@   ensures[count: C05 C20] result == min(ite(src.channels == 0, 0, cdiv(len(src.data), src.channels)),
+//@     | ite(dst.channels == 0, 0, cdiv(len(dst.data), dst.channels)))
+//@   ensures[no-alloc: C18] allocs == old(allocs)
+//@   modifies H(dst)
+//@   loop 1 kernel
+//@     invariant 0 <= $i && $i <= n
+//@     invariant forall(k, 0, $i, at(dst, k) == K(old(at(src, k))))
+//@     invariant sameExcept(dst, 0, $i)
+//@     decreases n - $i
+
+//@ func SignedAsFloat[S,D](src, dst)
+//@   props C05 C18 C19 C20
+//@   requires wf(src) && wf(dst) && disjoint(src, dst)
+//@   panics-iff[channels: C15] src.channels != dst.channels
+//@   let n = min(len(src.data), len(dst.data))
+//@   hint cdiv_def(len(src.data), src.channels)
+//@   hint cdiv_def(len(dst.data), dst.channels)
+//@   ensures[values: C05] forall(k, 0, n, at(dst, k) == K(old(at(src, k))))
+//@   ensures[frame: C05 C19 C20] sameExcept(dst, 0, n)
+//@   ensures[count: C05 C20] result == min(ite(src.channels == 0, 0, cdiv(len(src.data), src.channels)),
+//@     | ite(dst.channels == 0, 0, cdiv(len(dst.data), dst.channels)))
+//@   ensures[no-alloc: C18] allocs == old(allocs)
+//@   modifies H(dst)
+//@   loop 1 kernel
+//@     invariant 0 <= $i && $i <= n
+//@     invariant forall(k, 0, $i, at(dst, k) == K(old(at(src, k))))
+//@     invariant sameExcept(dst, 0, $i)
+//@     decreases n - $i
+
+//@ func UnsignedAsFloat[S,D](src, dst)
+//@   props C05 C18 C19 C20
+//@   requires wf(src) && wf(dst) && disjoint(src, dst)
+//@   panics-iff[channels: C15] src.channels != dst.channels
+//@   let n = min(len(src.data), len(dst.data))
+//@   hint cdiv_def(len(src.data), src.channels)
+//@   hint cdiv_def(len(dst.data), dst.channels)
+//@   ensures[values: C05] forall(k, 0, n, at(dst, k) == K(old(at(src, k))))
+//@   ensures[frame: C05 C19 C20] sameExcept(dst, 0, n)
+//@   ensures[count: C05 C20] result == min(ite(src.channels == 0, 0, cdiv(len(src.data), src.channels)),
+//@     | ite(dst.channels == 0, 0, cdiv(len(dst.data), dst.channels)))
+//@   ensures[no-alloc: C18] allocs == old(allocs)
+//@   modifies H(dst)
+//@   loop 1 kernel
+//@     invariant 0 <= $i && $i <= n
+//@     invariant forall(k, 0, $i, at(dst, k) == K(old(at(src, k))))
+//@     invariant sameExcept(dst, 0, $i)
+//@     decreases n - $i
+
+//@ func SignedAsSigned[S,D](src, dst)
+//@   props C05 C18 C19 C20
+//@   requires wf(src) && wf(dst) && disjoint(src, dst)
+//@   panics-iff[channels: C15] src.channels != dst.channels
+//@   let n = min(len(src.data), len(dst.data))
+//@   hint cdiv_def(len(src.data), src.channels)
+//@   hint cdiv_def(len(dst.data), dst.channels)
+//@   ensures[values: C05] forall(k, 0, n, at(dst, k) == K(old(at(src, k))))
+//@   ensures[frame: C05 C19 C20] sameExcept(dst, 0, n)
+//@   ensures[count: C05 C20] result == min(ite(src.channels == 0, 0, cdiv(len(src.data), src.channels)),
+//@     | ite(dst.channels == 0, 0, cdiv(len(dst.data), dst.channels)))
+//@   ensures[no-alloc: C18] allocs == old(allocs)
+//@   modifies H(dst)
+//@   loop 1 kernel
+//@     invariant 0 <= $i && $i <= n
+//@     invariant forall(k, 0, $i, at(dst, k) == K(old(at(src, k))))
+//@     invariant sameExcept(dst, 0, $i)
+//@     decreases n - $i
+//@   loop 2 kernel
+//@     invariant 0 <= $i && $i <= n
+//@     invariant forall(k, 0, $i, at(dst, k) == K(old(at(src, k))))
+//@     invariant sameExcept(dst, 0, $i)
+//@     decreases n - $i
+
+//@ func SignedAsUnsigned[S,D](src, dst)
+//@   props C05 C18 C19 C20
+//@   requires wf(src) && wf(dst) && disjoint(src, dst)
+//@   panics-iff[channels: C15] src.channels != dst.channels
+//@   let n = min(len(src.data), len(dst.data))
+//@   hint cdiv_def(len(src.data), src.channels)
+//@   hint cdiv_def(len(dst.data), dst.channels)
+//@   ensures[values: C05] forall(k, 0, n, at(dst, k) == K(old(at(src, k))))
+//@   ensures[frame: C05 C19 C20] sameExcept(dst, 0, n)
+//@   ensures[count: C05 C20] result == min(ite(src.channels == 0, 0, cdiv(len(src.data), src.channels)),
+//@     | ite(dst.channels == 0, 0, cdiv(len(dst.data), dst.channels)))
+//@   ensures[no-alloc: C18] allocs == old(allocs)
+//@   modifies H(dst)
+//@   loop 1 kernel
+//@     invariant 0 <= $i && $i <= n
+//@     invariant forall(k, 0, $i, at(dst, k) == K(old(at(src, k))))
+//@     invariant sameExcept(dst, 0, $i)
+//@     decreases n - $i
+//@   loop 2 kernel
+//@     invariant 0 <= $i && $i <= n
+//@     invariant forall(k, 0, $i, at(dst, k) == K(old(at(src, k))))
+//@     invariant sameExcept(dst, 0, $i)
+//@     decreases n - $i
+
+//@ func UnsignedAsSigned[S,D](src, dst)
+//@   props C05 C18 C19 C20
+//@   requires wf(src) && wf(dst) && disjoint(src, dst)
+//@   panics-iff[channels: C15] src.channels != dst.channels
+//@   let n = min(len(src.data), len(dst.data))
+//@   hint cdiv_def(len(src.data), src.channels)
+//@   hint cdiv_def(len(dst.data), dst.channels)
+//@   ensures[values: C05] forall(k, 0, n, at(dst, k) == K(old(at(src, k))))
+//@   ensures[frame: C05 C19 C20] sameExcept(dst, 0, n)
+//@   ensures[count: C05 C20] result == min(ite(src.channels == 0, 0, cdiv(len(src.data), src.channels)),
+//@     | ite(dst.channels == 0, 0, cdiv(len(dst.data), dst.channels)))
+//@   ensures[no-alloc: C18] allocs == old(allocs)
+//@   modifies H(dst)
+//@   loop 1 kernel
+//@     invariant 0 <= $i && $i <= n
+//@     invariant forall(k, 0, $i, at(dst, k) == K(old(at(src, k))))
+//@     invariant sameExcept(dst, 0, $i)
+//@     decreases n - $i
+//@   loop 2 kernel
+//@     invariant 0 <= $i && $i <= n
+//@     invariant forall(k, 0, $i, at(dst, k) == K(old(at(src, k))))
+//@     invariant sameExcept(dst, 0, $i)
+//@     decreases n - $i
+
+//@ func UnsignedAsUnsigned[S,D](src, dst)
+//@   props C05 C18 C19 C20
+//@   requires wf(src) && wf(dst) && disjoint(src, dst)
+//@   panics-iff[channels: C15] src.channels != dst.channels
+//@   let n = min(len(src.data), len(dst.data))
+//@   hint cdiv_def(len(src.data), src.channels)
+//@   hint cdiv_def(len(dst.data), dst.channels)
+//@   ensures[values: C05] forall(k, 0, n, at(dst, k) == K(old(at(src, k))))
+//@   ensures[frame: C05 C19 C20] sameExcept(dst, 0, n)
+//@   ensures[count: C05 C20] result == min(ite(src.channels == 0, 0, cdiv(len(src.data), src.channels)),
+//@     | ite(dst.channels == 0, 0, cdiv(len(dst.data), dst.channels)))
+//@   ensures[no-alloc: C18] allocs == old(allocs)
+//@   modifies H(dst)
+//@   loop 1 kernel
+//@     invariant 0 <= $i && $i <= n
+//@     invariant forall(k, 0, $i, at(dst, k) == K(old(at(src, k))))
+//@     invariant sameExcept(dst, 0, $i)
+//@     decreases n - $i
+//@   loop 2 kernel
+//@     invariant 0 <= $i && $i <= n
+//@     invariant forall(k, 0, $i, at(dst, k) == K(old(at(src, k))))
 //@     invariant sameExcept(dst, 0, $i)
 //@     decreases n - $i
